@@ -48,6 +48,7 @@ func main() {
 	encStream(rep, seed, nEnc, mode != "search")
 	confStream(rep, seed, nHist, nSteps, mode != "search", -1)
 	txStream(rep, seed, mode != "search")
+	reuseProbe(rep, seed*31+5)
 	rep.Write()
 }
 
@@ -145,7 +146,7 @@ func histChain(i int) string {
 }
 
 func confStream(rep *lib.Report, seed int64, nHist, nSteps int, write bool, only int) {
-	var items []string
+	var items, imps []string
 	for i := 0; i < nHist; i++ {
 		if only >= 0 && i != only {
 			continue
@@ -160,8 +161,16 @@ func confStream(rep *lib.Report, seed int64, nHist, nSteps int, write bool, only
 				lib.Must(h.c.NextBlock())
 				h.log = append(h.log, "next-block")
 			}
-			if r.Chance(14) || (i%2 == 0 && s == 2) { // every second history rotates a bridger early
+			if i%3 == 0 && s == 6 { // a rotation by an oracle whose confirm is stored
+				h.editBridgerConfirmed()
+			} else if r.Chance(14) || (i%2 == 0 && s == 2) { // every second history rotates a bridger early
 				h.editBridger()
+			}
+			// lifecycle: restart from exported genesis, in every third history after a rotation that followed confirms
+			if (i%3 == 0 && s == 7) || r.Chance(4) {
+				if it := h.exportImport(rep, s); it != "" {
+					imps = append(imps, it)
+				}
 			}
 		}
 		if only >= 0 {
@@ -172,6 +181,7 @@ func confStream(rep *lib.Report, seed int64, nHist, nSteps int, write bool, only
 	}
 	if write && only < 0 {
 		lib.WriteCases("Cases_C12_conf.v", []string{"model.M_Abi", "model.M_CkDesc", "model.M_Confirm", "model.M_ConfirmCorr"}, "conf_case", items, "conf_mismatch")
+		lib.WriteCases("Cases_C12_imp.v", []string{"model.M_Abi", "model.M_CkDesc", "model.M_Confirm", "model.M_ConfirmCorr"}, "imp_case", imps, "imp_mismatch")
 	}
 }
 
